@@ -156,7 +156,7 @@ def qr_body(ctx, case):
 
 
 # ---- (b) initial walkers ---------------------------------------------------------------------------------
-INIT_KINDS = ["rhf", "uhf", "ghf", "noci", "uhf-spin-broken", "cisd-with-rdm1"]
+INIT_KINDS = ["rhf", "uhf", "ghf", "noci", "uhf-spin-broken", "cisd-with-rdm1", "uhf-neel", "uhf-rohf-like"]
 
 
 @st.composite
@@ -183,6 +183,20 @@ def init_case(draw, tier, shard=0, nshards=1):
         restricted = True
         kind_l = "uhf"
         return {"kind": kind, "lib_kind": kind_l, "norb": norb, "nelec": list(nelec), "params": params, "n_walkers": nw, "restricted": restricted, "theta": theta, "ham": draw(gens.hamiltonian(norb, spin_dependent=False))}
+    elif kind == "uhf-neel":
+        # site-localised (Neel-like) determinants: up and down electrons on disjoint sites, exact zeros in the orbital overlaps
+        norb, nelec = draw(st.sampled_from([(4, (2, 2)), (2, (1, 1)), (4, (1, 1)), (3, (1, 1))]))
+        sites = list(draw(st.permutations(range(norb))))
+        n = nelec[0]
+        params = {"mo_coeff": [np.eye(norb)[:, sites[:n]], np.eye(norb)[:, sites[n : 2 * n]]]}
+        return {"kind": kind, "lib_kind": "uhf", "norb": norb, "nelec": list(nelec), "params": params, "n_walkers": nw, "restricted": True, "ham": draw(gens.hamiltonian(norb, spin_dependent=False))}
+    elif kind == "uhf-rohf-like":
+        # down orbitals inside the span of the up orbitals (ROHF-type open shell): a restricted walker can represent the trial exactly
+        norb, nelec = draw(st.sampled_from([(3, (2, 1)), (4, (3, 1)), (4, (2, 1)), (4, (3, 2))]))
+        up = draw(gens.orbitals(norb, nelec[0], True))
+        R = draw(gens.orthogonal(nelec[0]))
+        params = {"mo_coeff": [up, up @ R[:, : nelec[1]]]}
+        return {"kind": kind, "lib_kind": "uhf", "norb": norb, "nelec": list(nelec), "params": params, "n_walkers": nw, "restricted": True, "ham": draw(gens.hamiltonian(norb, spin_dependent=False))}
     else:
         norb, nelec = draw(st.sampled_from([(3, (1, 1)), (4, (2, 2))]))
         params = draw(gens.trial_params("cisd", norb, nelec))
@@ -209,6 +223,19 @@ def init_body(ctx, case):
     if lk == "noci" and pn < 1e-3 * float(np.sum(np.abs(np.asarray(case["params"]["ci"])))):
         ctx.count("rejected:noci-trial-numerically-zero")
         hypothesis.assume(False)
+    noci_singular = False
+    if lk == "noci":
+        ups_, dns_ = np.asarray(case["params"]["dets_up"]), np.asarray(case["params"]["dets_dn"])
+        worst = 1.0
+        for a in range(len(ups_)):
+            for b in range(len(ups_)):
+                for A, B, n_ in ((ups_[a], ups_[b], nelec[0]), (dns_[a], dns_[b], nelec[1])):
+                    if n_:
+                        worst = max(worst, np.linalg.cond(A[:, :n_].T @ B[:, :n_]))
+        if 1e6 < worst <= 1e12:
+            ctx.count("skipped:noci-nearly-orthogonal-determinant-pair")
+            return
+        noci_singular = worst > 1e12
     try:
         w = trial.get_init_walkers(wd, nw, restricted=restricted)
     except ValueError as e:
@@ -234,6 +261,9 @@ def init_body(ctx, case):
             ctx.fail(f"init:shape:{kind}:unrestricted", case, f"shapes {ups.shape} {dns.shape}")
             return
     F = fock(norb)
+    if noci_singular and not (np.all(np.isfinite(ups)) and np.all(np.isfinite(dns))):
+        ctx.fail("init:noci:orthogonal-determinant-pair", case, "get_init_walkers returned NaN walkers (no error) for a NOCI trial with two mutually orthogonal determinants")
+        return
     for i in range(nw):
         for lab, A in (("up", ups[i]), ("dn", dns[i])):
             if A.shape[1]:
@@ -261,7 +291,13 @@ def init_body(ctx, case):
         collinear = bool(np.allclose(C[:norb, nelec[0] :], 0) and np.allclose(C[norb:, : nelec[0]], 0))
         ctx.count("init:ghf-collinear" if collinear else "init:ghf-spin-mixed")
     # a UHF-type walker can reproduce a GHF trial only if the latter is collinear
-    if lk in ("rhf", "uhf", "ghf") and collinear and not restricted and kind != "uhf-spin-broken":
+    if kind == "uhf-rohf-like":
+        # the restricted walker must be the trial itself: |<psi|init>| = |psi| and mixed energy = variational energy
+        ov_n = abs(np.vdot(psi, phi0)) / pn
+        if not ov_n >= 1 - 1e-9:
+            ctx.fail("init:rohf-like-not-reproduced:restricted", case, f"down orbitals lie in the up space but the restricted initial walker has |<psi_T|init>| = {ov_n:.6f} < 1")
+            return
+    if lk in ("rhf", "uhf", "ghf") and collinear and (not restricted or kind == "uhf-rohf-like") and kind != "uhf-spin-broken":
         h1 = np.asarray(case["ham"]["h1"], float)
         if lk == "rhf":
             h1 = np.stack([(h1[0] + h1[1]) / 2] * 2)
@@ -274,5 +310,5 @@ def init_body(ctx, case):
 
 SUBCHECKS = [
     SubCheck("reorthonormalisation", body=qr_body, strategy=qr_case, examples={"quick": 30, "thorough": 400}, shards={"quick": 8, "thorough": 8}),
-    SubCheck("initial_walkers", body=init_body, strategy=init_case, examples={"quick": 50, "thorough": 600}, shards={"quick": 6, "thorough": 6}),
+    SubCheck("initial_walkers", body=init_body, strategy=init_case, examples={"quick": 40, "thorough": 500}, shards={"quick": 8, "thorough": 8}),
 ]
